@@ -377,18 +377,36 @@ func refStraddleUnit(r refCfg) harness.Unit {
 // an empty list, a compression list without "null". Resumption logic runs before suite selection,
 // so what it leaves behind must not let such a hello through. A hello that offers the ticket with
 // the server's other suite is the conformant control (full handshake or resumption, must complete).
-func refTicketHelloUnit(suite uint16) harness.Unit {
-	return harness.Unit{Name: fmt.Sprintf("scripted-peer-ticket-then-hello/%04x", suite), Run: func(c *harness.Ctx) {
+func refTicketHelloUnit(suite uint16) harness.Unit { return refTicketHelloUnitP(suite, false) }
+
+// prefer: the server has PreferServerCipherSuites set (its own list then drives the choice, which
+// must still be confined to what the client offers - also when a ticket is presented)
+func refTicketHelloUnitP(suite uint16, prefer bool) harness.Unit {
+	name := fmt.Sprintf("scripted-peer-ticket-then-hello/%04x", suite)
+	if prefer {
+		name += "/PreferServerCipherSuites"
+	}
+	return harness.Unit{Name: name, Run: func(c *harness.Ctx) {
 		p := tlsk.Get()
+		tls := suite == gmref.SuiteAESCBC || suite == gmref.SuiteAESGCM
 		mkServer := func() *gmtls.Config {
 			sc := &gmtls.Config{GMSupport: &gmtls.GMSupport{}, Certificates: []gmtls.Certificate{p.Sign, p.Enc}, Time: tlsk.FixedTime, Rand: wire.NewRand(91),
-				CipherSuites: []uint16{gmtls.GMTLS_ECC_SM4_CBC_SM3, gmtls.GMTLS_ECC_SM4_GCM_SM3}}
+				CipherSuites: []uint16{gmtls.GMTLS_ECC_SM4_CBC_SM3, gmtls.GMTLS_ECC_SM4_GCM_SM3}, PreferServerCipherSuites: prefer}
+			if tls {
+				sc = &gmtls.Config{Certificates: []gmtls.Certificate{p.RSA}, Time: tlsk.FixedTime, Rand: wire.NewRand(91), MinVersion: 0x0303, MaxVersion: 0x0303,
+					CipherSuites: []uint16{gmref.SuiteAESGCM, gmref.SuiteAESCBC}, PreferServerCipherSuites: prefer}
+			}
 			sc.SetSessionTicketKeys([][32]byte{{9, 9, 9}})
 			return sc
 		}
 		other := uint16(gmref.SuiteCBC)
-		if suite == gmref.SuiteCBC {
+		switch suite {
+		case gmref.SuiteCBC:
 			other = gmref.SuiteGCM
+		case gmref.SuiteAESCBC:
+			other = gmref.SuiteAESGCM
+		case gmref.SuiteAESGCM:
+			other = gmref.SuiteAESCBC
 		}
 		type hello struct {
 			name       string
@@ -400,7 +418,7 @@ func refTicketHelloUnit(suite uint16) harness.Unit {
 			{"only the server's other suite (control)", []uint16{other}, true},
 			{"only unknown suites", []uint16{0x0a0a, 0x1a1a, 0xfafa}, false},
 			{"only the unimplemented ECDHE-SM2 suites", []uint16{0xe011, 0xe051}, false},
-			{"only standard TLS suites", []uint16{0xc02b, 0xc02f, 0x009c}, false},
+			{"only suites of the other protocol family", map[bool][]uint16{false: {0xc02b, 0xc02f, 0x009c}, true: {0xe013, 0xe053}}[tls], false},
 			{"an empty suite list", []uint16{}, false},
 		}
 		for _, withTicket := range []bool{true, false} {
@@ -408,13 +426,23 @@ func refTicketHelloUnit(suite uint16) harness.Unit {
 				sc := mkServer()
 				// connection 1: honest, obtains a ticket
 				var first *gmref.Peer
-				o1 := tlsk.RunLibVsRef(sc, false, tlsk.LibApp(false), gmref.Identity{}, 92, func(q *gmref.Peer) { q.Suites = []uint16{suite}; q.OfferTicket = true; first = q }, &gmref.Script{Data: tlsk.PingPong(true)}, nil)
+				o1 := tlsk.RunLibVsRef(sc, false, tlsk.LibApp(false), gmref.Identity{}, 92, func(q *gmref.Peer) {
+					if tls {
+						q.UseTLS()
+					}
+					q.Suites = []uint16{suite}
+					q.OfferTicket = true
+					first = q
+				}, &gmref.Script{Data: tlsk.PingPong(true)}, nil)
 				if !o1.Lib.Complete || first == nil || first.NewTicket == nil {
 					c.Violate("control-fails:ticket-issue", fmt.Sprintf("suite %04x: the honest first connection does not complete with a ticket: %s", suite, o1.Describe()), nil, nil)
 					return
 				}
 				ticket, master := first.NewTicket, first.Master
 				setup := func(q *gmref.Peer) {
+					if tls {
+						q.UseTLS()
+					}
 					q.Suites = h.suites
 					q.OfferTicket = true
 					if withTicket {
@@ -431,7 +459,7 @@ func refTicketHelloUnit(suite uint16) harness.Unit {
 				if h.conformant {
 					verdict = refdev.MustComplete
 				}
-				r := refCfg{libIsClient: false, suite: suite}
+				r := refCfg{libIsClient: false, suite: suite, tls: tls}
 				judgeRef(c, r, tag, fmt.Sprintf("ticket=%v:hello offering %s", withTicket, h.name), o, verdict)
 				if o.Lib.Complete && len(h.suites) > 0 {
 					offered := false
@@ -589,6 +617,10 @@ func refUnofferedSuiteUnit() harness.Unit {
 
 func refUnits() []harness.Unit {
 	var u []harness.Unit
+	for _, ts := range []uint16{gmtls.GMTLS_ECC_SM4_CBC_SM3, gmtls.GMTLS_ECC_SM4_GCM_SM3, gmref.SuiteAESCBC, gmref.SuiteAESGCM} {
+		u = append(u, refTicketHelloUnitP(ts, true))
+	}
+	u = append(u, refTicketHelloUnit(gmref.SuiteAESCBC), refTicketHelloUnit(gmref.SuiteAESGCM))
 	u = append(u, refTicketHelloUnit(gmtls.GMTLS_ECC_SM4_CBC_SM3), refTicketHelloUnit(gmtls.GMTLS_ECC_SM4_GCM_SM3), refNPNUnit(gmref.SuiteAESCBC), refNPNUnit(gmref.SuiteAESGCM), refNPNUnit(gmtls.GMTLS_ECC_SM4_CBC_SM3), refNPNUnit(gmtls.GMTLS_ECC_SM4_GCM_SM3))
 	for _, lc := range []bool{true, false} {
 		for _, suite := range []uint16{gmtls.GMTLS_ECC_SM4_CBC_SM3, gmtls.GMTLS_ECC_SM4_GCM_SM3} {
